@@ -122,7 +122,18 @@ impl Gen {
         }
         let n = match self.r.gen_range(0..6) { 0 => 0, 1 => 1, _ => self.r.gen_range(0..=width) };
         if self.r.gen() {
-            Value::Array((0..n).map(|_| self.doc(depth - 1, width)).collect())
+            // now and then an element is a "twin" of its predecessor: the same value in another
+            // encoding, an identical copy, or a value of another type with the same payload bytes
+            let mut a: Vec<Value<'static>> = Vec::with_capacity(n);
+            for _ in 0..n {
+                if !a.is_empty() && self.r.gen_range(0..5) == 0 {
+                    let t = self.twin(&a[a.len() - 1].clone());
+                    if self.r.gen_range(0..4) == 0 { let at = a.len() - 1; a.insert(at, t); } else { a.push(t); }
+                } else {
+                    a.push(self.doc(depth - 1, width));
+                }
+            }
+            Value::Array(a)
         } else {
             let mut m = BTreeMap::new();
             for _ in 0..n {
@@ -130,6 +141,39 @@ impl Gen {
                 m.insert(k, self.doc(depth - 1, width));
             }
             Value::Object(m)
+        }
+    }
+    fn register_floats(&mut self, v: &Value) {
+        match v {
+            Value::Number(Number::Float64(f)) if f.is_finite() => {
+                if !self.fl.iter().any(|(b, _)| *b == f.to_bits()) {
+                    self.fl.push((f.to_bits(), format!("{:?}", f).into_bytes()));
+                }
+            }
+            Value::Array(a) => for x in a { self.register_floats(x); },
+            Value::Object(o) => for x in o.values() { self.register_floats(x); },
+            _ => {}
+        }
+    }
+    pub fn twin(&mut self, v: &Value<'static>) -> Value<'static> {
+        let t = self.twin0(v);
+        self.register_floats(&t);
+        t
+    }
+    fn twin0(&mut self, v: &Value<'static>) -> Value<'static> {
+        match self.r.gen_range(0..4) {
+            0 => v.clone(),
+            1 => match v {
+                Value::Number(n) => {
+                    let mut p = Vec::new();
+                    crate::tree::compact_num(n, &mut p);
+                    match String::from_utf8(p) { Ok(s) => Value::String(s.into()), Err(_) => v.clone() }
+                }
+                Value::Null | Value::Bool(_) => Value::String("".into()),
+                Value::String(s) if s.is_empty() => Value::Null,
+                _ => deep_reencode(v),
+            },
+            _ => deep_reencode(v),
         }
     }
     pub fn fl_json(&self) -> J {
@@ -199,6 +243,15 @@ fn reencode(n: &Number) -> Number {
     }
 }
 
+fn deep_reencode(v: &Value<'static>) -> Value<'static> {
+    match v {
+        Value::Number(n) => Value::Number(reencode(n)),
+        Value::Array(a) => Value::Array(a.iter().map(deep_reencode).collect()),
+        Value::Object(o) => Value::Object(o.iter().map(|(k, x)| (k.clone(), deep_reencode(x))).collect()),
+        _ => v.clone(),
+    }
+}
+
 fn names_of(g: &mut Gen, v: &Value) -> Vec<u8> {
     let mut pool: Vec<String> = Vec::new();
     match v {
@@ -257,6 +310,22 @@ fn keyset_of(g: &mut Gen, v: &Value) -> J {
     if g.r.gen_range(0..3) == 0 { ks.push(g.key().into_bytes()); }
     ks.sort();
     ks.dedup();
+    J::Array(ks.iter().map(|k| bytes_to_j(k)).collect())
+}
+
+// a key list as a caller may pass it: unsorted, with repeats
+fn keylist_of(g: &mut Gen, v: &Value) -> J {
+    let mut ks: Vec<Vec<u8>> = Vec::new();
+    if let Value::Object(o) = v {
+        for k in o.keys() { if g.r.gen() { ks.push(k.as_bytes().to_vec()); } }
+    }
+    if let Value::Array(a) = v {
+        for x in a { if let Value::String(s) = x { if g.r.gen() { ks.push(s.as_bytes().to_vec()); } } }
+    }
+    if g.r.gen_range(0..3) == 0 { ks.push(g.key().into_bytes()); }
+    for _ in 0..g.r.gen_range(0..3) {
+        if !ks.is_empty() { let k = g.pick(&ks).clone(); let at = g.r.gen_range(0..=ks.len()); ks.insert(at, k); }
+    }
     J::Array(ks.iter().map(|k| bytes_to_j(k)).collect())
 }
 
@@ -397,7 +466,7 @@ pub fn script(kind_arg: &str, seed: u64, count: usize) -> Vec<J> {
                     3 => json!({"op":"get_by_keypath","a":{"kp": keypath_of(&mut g, &d)}}),
                     4 => json!({"op": *g.pick(&["array_length","object_keys","object_each","array_values","type_of"]),"a":{}}),
                     6 => json!({"op":"casts","a":{}}),
-                    7 => json!({"op":"exists_keys","a":{"keys": keyset_of(&mut g, &d), "all": g.r.gen_range(0..2)}}),
+                    7 => json!({"op":"exists_keys","a":{"keys": if g.r.gen() { keyset_of(&mut g, &d) } else { keylist_of(&mut g, &d) }, "all": g.r.gen_range(0..2)}}),
                     9 => json!({"op":"traverse","a":{"pred": {"eq": bytes_to_j(&names_of(&mut g, &d))}}}),
                     _ => json!({"op":"traverse","a":{"pred": {"has": g.r.gen_range(0..128)}}}),
                 };
